@@ -66,6 +66,317 @@ def hsl_check(ctx, c, outs):
     return None
 
 
+# ---- corr: geometry of the colour key (`_util.py`) ------------------------------------------------
+EPS = 2.0 ** -52
+TWO_PI = 2 * np.pi
+TABLE_M = 1000
+# `_correct_azimuth` table: sums of <= 999 positive terms in a different order (numpy sums pairwise) differ by at most
+# (n-1) eps relatively, three times (segment sum, total, cumsum): 3 * 1000 * eps * 2 pi = 4.2e-12.  In addition one of the
+# 3 * 999 cosines may fall on the other side of a `np.round(cos, 10)` bucket edge: a distance changes by
+# 1e-10 / sin(d) <= 1e-9, the table by 2 pi * 1e-9 / sum(d) (sum(d) > 100) = 6e-11 at most.
+TABLE_TOL = 8e-11
+_SECT = {}
+
+
+def hexes(xs):
+    return " ".join(f2h(x) for x in np.asarray(xs, float).reshape(-1))
+
+
+def sector_inputs(k):
+    """the Laue sector of group k as the colour key sees it: (sector, normals as stored, centre, vertices)"""
+    if k not in _SECT:
+        G, fs, n, m = c07.sector_data(k, "laue")
+        with warnings.catch_warnings():
+            warnings.simplefilter("ignore")
+            _SECT[k] = (fs, fs.data.reshape(-1, 3).astype(float), fs.center.data.reshape(3).astype(float),
+                        fs.vertices.data.reshape(-1, 3).astype(float))
+    return _SECT[k]
+
+
+def synthetic_sector(d):
+    """a sector object with prescribed normals, centre and vertices (to reach the branch of `polar_coordinates_in_sector`
+    that no Laue sector reaches: all walls contain the centre / no walls)"""
+    from orix.vector import FundamentalSector, Vector3d
+
+    class Synthetic(FundamentalSector):
+        center = property(lambda self: Vector3d(np.asarray(d["center"], float).reshape(1, 3)))
+        vertices = property(lambda self: Vector3d(np.asarray(d["vertices"], float).reshape(-1, 3)))
+    fs = Synthetic(np.asarray(d["normals"], float).reshape(-1, 3))
+    return (fs, np.asarray(d["normals"], float).reshape(-1, 3), np.asarray(d["center"], float).reshape(3),
+            np.asarray(d["vertices"], float).reshape(-1, 3))
+
+
+def sector_of(c):
+    return synthetic_sector(c["sector"]) if "sector" in c else sector_inputs(c["k"])
+
+
+def sector_request(op, c, dirs=None):
+    fs, nrm, cen, vert = sector_of(c)
+    tail = "" if dirs is None else " " + hexes(dirs)
+    head = f"ckey {op} {len(nrm)} {len(vert)} " + " ".join(x for x in (hexes(nrm), hexes(cen), hexes(vert)) if x)
+    return head + tail
+
+
+def rx_of(fs):
+    from orix.vector import Vector3d
+    c = fs.center.unit
+    return c, (Vector3d.xvector() if fs.vertices.size == 0 else Vector3d.zvector()) - c
+
+
+def impl_table(k):
+    """the implementation's correction table, read off by interpolating at the table angles themselves"""
+    from orix.plot.direction_color_keys._util import _correct_azimuth
+    fs = sector_inputs(k)[0]
+    with warnings.catch_warnings():
+        warnings.simplefilter("ignore")
+        return _correct_azimuth(np.linspace(0, TWO_PI, TABLE_M), fs, rx_of(fs)[1])
+
+
+def projected(k, vs):
+    from orix.vector import Vector3d
+    G, fs, n, m = c07.sector_data(k, "laue")
+    if not len(vs):
+        return np.zeros((0, 3))
+    with warnings.catch_warnings():
+        warnings.simplefilter("ignore")
+        return Vector3d(np.asarray(vs, float)).in_fundamental_sector(G).data.reshape(-1, 3)
+
+
+def key_dirs(c):
+    """directions handed to `polar_coordinates_in_sector`: the implementation's projection of the raw directions, then
+    the special directions of the case (centre, vertices, wall points, ...) as they are"""
+    h = projected(c["k"], c["vs"]) if len(c["vs"]) else np.zeros((0, 3))
+    return np.vstack([h, np.asarray(c["hs"], float).reshape(-1, 3)])
+
+
+def absdiff(a, b):
+    """|a - b|, 0 where both are the same infinity or both NaN"""
+    a, b = np.asarray(a, float), np.asarray(b, float)
+    with np.errstate(invalid="ignore"):
+        return np.where((a == b) | (np.isnan(a) & np.isnan(b)), 0.0, np.abs(a - b))
+
+
+def circ(a, b):
+    d = absdiff(a, b)
+    return np.minimum(d, np.abs(TWO_PI - d))
+
+
+def bucket_flip(cos, unc):
+    """can the pre-rounding cosine, known up to `unc`, fall on either side of an edge of `np.round(cos, 10)`?"""
+    t = cos * 1e10
+    return np.abs(t - np.floor(t) - 0.5) <= unc * 1e10 + 1e-5
+
+
+def bucket_width(cos):
+    """change of arccos(round(cos, 10)) when the rounded cosine moves to a neighbouring bucket"""
+    r = np.round(cos, 10)
+    with np.errstate(invalid="ignore"):
+        return np.abs(np.arccos(np.clip(r - 1e-10, -1, 1)) - np.arccos(np.clip(r + 1e-10, -1, 1)))
+
+
+def polar_tolerance(nrm, cu, hu):
+    """admissible |model - implementation| of the polar coordinate, from the conditioning of the formula:
+    the angles are arccos(round(cos, 10)); as long as model and implementation round to the same bucket they differ by
+    rounding of arccos and of the quotient only; the pre-rounding cosines are uncertain by a few eps, amplified by the
+    normalisation of `v x centre` (small near the centre) and of the boundary vector; only if a cosine is that close
+    to a bucket edge the effect of one bucket is admitted."""
+    with np.errstate(all="ignore"):
+        raw = np.cross(hu, cu)
+        nv = np.linalg.norm(raw, axis=1)
+        vcn = np.nan_to_num(raw / nv[:, None])
+        tol = np.zeros(len(hu))
+        for n in nrm:
+            braw = np.cross(vcn, n)
+            nb = np.linalg.norm(braw, axis=1)
+            b = np.nan_to_num(braw / nb[:, None])
+            cn = np.sum(-hu * b, axis=1) / np.linalg.norm(hu, axis=1) / np.linalg.norm(b, axis=1)
+            cd = np.sum(-cu * b, axis=1) / np.linalg.norm(cu) / np.linalg.norm(b, axis=1)
+            an, ad = np.arccos(np.round(cn, 10)), np.arccos(np.round(cd, 10))
+            ratio = an / ad
+            unc = 16 * EPS * (1 + 1 / np.maximum(nv, 1e-300) + 1 / np.maximum(nb, 1e-300))
+            t = 16 * EPS * (1 + ratio) / ad
+            t = t + np.where(bucket_flip(cn, unc), bucket_width(cn) / ad, 0.0)
+            t = t + np.where(bucket_flip(cd, unc), bucket_width(cd) * ratio / ad, 0.0)
+            tol = np.maximum(tol, np.where(np.isfinite(t), t, 0.0))
+    return tol + 4 * EPS
+
+
+def key_lines(c):
+    return [sector_request("dirs", c, key_dirs(c))]
+
+
+def key_check(ctx, c, outs):
+    from orix.plot.direction_color_keys._util import (_calculate_azimuth, polar_coordinates_in_sector,
+                                                      rgb_from_polar_coordinates)
+    from orix.vector import Vector3d
+    k = c["k"]
+    fs, nrm, cen, vert = sector_of(c)
+    hd = key_dirs(c)
+    H = Vector3d(hd)
+    try:
+        with warnings.catch_warnings():
+            warnings.simplefilter("ignore")
+            az, pol = polar_coordinates_in_sector(fs, H)
+    except Exception as e:
+        if outs[0].startswith("!err exception"):
+            return None
+        return f"{c['label']}: polar_coordinates_in_sector raised {type(e).__name__}: {str(e)[:120]} but the model returns values"
+    if outs[0].startswith("!err"):
+        return f"{c['label']}: model answers {outs[0]} but polar_coordinates_in_sector returns values"
+    m = np.array([h2f(x) for x in outs[0].split()]).reshape(-1, 6)
+    if len(m) != len(hd):
+        return f"model returned {len(m)} directions for {len(hd)}"
+    cu, rx = rx_of(fs)
+    hu = H.unit
+    with warnings.catch_warnings():
+        warnings.simplefilter("ignore")
+        az0 = _calculate_azimuth(cu, rx, hu)
+        rgb = rgb_from_polar_coordinates(az, 0.5 + pol / 2)
+    dist = np.linalg.norm(hu.data - cu.data, axis=1)
+    # arctan2 of the components of d = unit(v - centre) along rx, ry: the difference vector is known to 2 eps / |v - centre|
+    # relatively, and only its part orthogonal to the centre (length rho; 0 for the antipode of the centre) carries the angle
+    with np.errstate(all="ignore"):
+        dvec = np.nan_to_num((hu.data - cu.data) / dist[:, None])
+        rho = np.linalg.norm(np.cross(dvec, cu.data.reshape(3)), axis=1)
+        tol_az = np.where(dist > 0, np.minimum(TWO_PI, 16 * EPS * (1 + 1 / np.maximum(dist, 1e-300)) / np.maximum(rho, 1e-300)),
+                          4 * EPS)
+    if fs.vertices.size:
+        tab = impl_table(k)          # synthetic sectors have no vertices
+        slope = float(np.max(np.diff(tab)) / (TWO_PI / (TABLE_M - 1)))
+        tol_c = TABLE_TOL + max(slope, 1.0) * tol_az
+    else:
+        tol_c = tol_az
+    tol_p = polar_tolerance(nrm, cu.data.reshape(3), hu.data.reshape(-1, 3))
+    tol_rgb = tol_p + 6 * tol_c / TWO_PI + 16 * EPS
+    d0, d1, d2 = circ(az0, m[:, 0]), circ(az, m[:, 1]), absdiff(pol, m[:, 2])
+    d3 = absdiff(rgb, m[:, 3:]).max(axis=1)
+    ctx.dev("key_azimuth_over_tol", float(np.max(d0 / tol_az)))
+    ctx.dev("key_corrected_azimuth_abs", float(np.max(np.where(tol_az < 1e-9, d1, 0.0))))
+    ctx.dev("key_polar_abs", float(np.max(d2)))
+    ctx.dev("key_polar_over_tol", float(np.max(d2 / tol_p)))
+    ctx.dev("key_rgb_abs", float(np.max(np.where(tol_az < 1e-9, d3, 0.0))))
+    for name, d, tol, impl, mod in (("azimuth before the correction", d0, tol_az, az0, m[:, 0]),
+                                    ("corrected azimuth", d1, tol_c, az, m[:, 1]),
+                                    ("polar coordinate", d2, tol_p, pol, m[:, 2])):
+        bad = ~(d <= tol)
+        if bad.any():
+            j = int(np.argmax(np.where(bad, d / tol, 0)))
+            return (f"{c['label']}: {name} of direction {hd[j].tolist()} in the sector: implementation {float(impl[j])!r}, "
+                    f"model {float(mod[j])!r} (|diff| {float(d[j]):.3g} > tolerance {float(tol[j]):.3g})")
+    bad = ~(d3 <= tol_rgb)
+    if bad.any():
+        j = int(np.argmax(np.where(bad, d3 / tol_rgb, 0)))
+        return (f"{c['label']}: rgb_from_polar_coordinates for direction {hd[j].tolist()}: implementation {rgb[j].tolist()}, "
+                f"model {m[j, 3:].tolist()}")
+    inside = (hu.data.reshape(-1, 3) @ nrm.T >= -1e-9).all(axis=1) if len(nrm) else np.ones(len(hd), bool)
+    if "sector" not in c and (not np.isfinite(m).all() or not ((m[inside, 2] >= 0) & (m[inside, 2] <= 1)).all()):
+        return f"{c['label']}: model polar coordinate of a direction in the sector outside [0, 1] or not finite"
+    # the public entry: direction2color(v) = colour of the projection of v
+    nv = len(c["vs"])
+    if nv:
+        full = colours(key_for(k)[0], np.asarray(c["vs"], float))
+        d4 = np.abs(full - m[:nv, 3:]).max(axis=1)
+        ctx.dev("key_direction2color_abs", float(np.max(np.where(tol_az[:nv] < 1e-9, d4, 0.0))))
+        bad = ~(d4 <= tol_rgb[:nv])
+        if bad.any():
+            j = int(np.argmax(np.where(bad, d4 / tol_rgb[:nv], 0)))
+            return (f"{c['label']}: direction2color({c['vs'][j]}) = {full[j].tolist()} but the model colour of its projection "
+                    f"{hd[j].tolist()} is {m[j, 3:].tolist()}")
+    return None
+
+
+def table_lines(c):
+    return [sector_request("table", c)]
+
+
+def table_check(ctx, c, outs):
+    """the correction table itself; and, measured on the implementation: it is a cumulative distribution (0 .. 2 pi,
+    increasing), a 3-vertex sector has the values 2 pi/3 and 4 pi/3 at the segment boundaries, and the corrected
+    azimuth of each vertex differs from k * 2 pi / 3 only through the table's discretisation"""
+    from orix.plot.direction_color_keys._util import _calculate_azimuth, _correct_azimuth
+    k = c["k"]
+    fs, nrm, cen, vert = sector_inputs(k)
+    try:
+        tab = impl_table(k)
+    except Exception as e:
+        if outs[0].startswith("!err exception"):
+            return None
+        return f"{c['label']}: _correct_azimuth raised {type(e).__name__}: {str(e)[:120]} but the model returns a table"
+    if outs[0].startswith("!err"):
+        return f"{c['label']}: model answers {outs[0]} but _correct_azimuth returns values"
+    t = outs[0].split()
+    a, b = int(t[0]), int(t[1])
+    mt = np.array([h2f(x) for x in t[2:]])
+    if mt.shape != tab.shape:
+        return f"{c['label']}: model table has {mt.shape} entries, implementation {tab.shape}"
+    d = np.abs(mt - tab)
+    ctx.dev("table_abs", float(d.max()))
+    if not d.max() <= TABLE_TOL:
+        j = int(np.argmax(d))
+        return f"{c['label']}: correction table entry {j}: implementation {float(tab[j])!r}, model {float(mt[j])!r}"
+    for name, x in (("implementation", tab), ("model", mt)):
+        if x[0] != 0 or abs(x[-1] - TWO_PI) > 64 * EPS * TWO_PI or not (np.diff(x) >= 0).all():
+            return f"{c['label']}: {name} table is not increasing from 0 to 2 pi: ends {float(x[0])!r}, {float(x[-1])!r}"
+    if len(vert) == 3:
+        for name, x in (("implementation", tab), ("model", mt)):
+            e = max(abs(x[a] - TWO_PI / 3), abs(x[b] - 2 * TWO_PI / 3))
+            ctx.dev("table_third_abs", float(e))
+            if not e <= TABLE_TOL:
+                return (f"{c['label']}: {name} table at the segment boundaries {a}, {b} is {float(x[a])!r}, {float(x[b])!r}, expected "
+                        f"2 pi/3 and 4 pi/3")
+        from orix.vector import Vector3d
+        cu, rx = rx_of(fs)
+        with warnings.catch_warnings():
+            warnings.simplefilter("ignore")
+            av = _calculate_azimuth(cu, rx, Vector3d(vert).unit)
+            cv = _correct_azimuth(av.copy(), fs, rx)
+        slope = float(np.max(np.diff(tab)) / (TWO_PI / (TABLE_M - 1)))
+        for x, y in zip(av, cv):
+            kk = np.array([0.0, 1.0, 2.0, 3.0]) * TWO_PI / 3
+            node = np.array([0.0, a, b, TABLE_M - 1]) * TWO_PI / (TABLE_M - 1)
+            j = int(np.argmin(np.abs(y - kk)))
+            off = abs(y - kk[j])
+            ctx.dev("vertex_hue_offset_from_third", float(off / TWO_PI))
+            if not off <= slope * abs(x - node[j]) + TABLE_TOL:
+                return (f"{c['label']}: vertex with azimuth {float(x)!r} gets the corrected azimuth {float(y)!r}; it is {off:.3g} away from "
+                        f"{j} * 2 pi/3, more than the table discretisation explains")
+    return None
+
+
+def contract_lines(c):
+    xp, fp, xs = c["xp"], c["fp"], c["x"]
+    return [f"ckey linspace {c['n']} {hexes([c['a'], c['b']])}", f"ckey cumsum {hexes(fp)}",
+            f"ckey interp {len(xp)} {hexes(xp)} {hexes(fp)} {hexes(xs)}",
+            f"ckey anglewith {hexes(c['u'])} {hexes(c['w'])}"]
+
+
+def contract_check(ctx, c, outs):
+    """numpy contracts used by the model: linspace, cumsum (bit-exact), interp (few ulps: a compiler may contract
+    slope * dx + y), Vector3d.angle_with"""
+    from orix.vector import Vector3d
+    fl = lambda o: np.array([h2f(x) for x in o.split()])
+    ls = np.linspace(c["a"], c["b"], c["n"])
+    if not np.array_equal(fl(outs[0]), ls):
+        return f"np.linspace({c['a']}, {c['b']}, {c['n']}) differs from the model"
+    cs = np.cumsum(np.array(c["fp"]))
+    if not np.array_equal(fl(outs[1]), cs):
+        return f"np.cumsum({c['fp']}) = {cs.tolist()} but model = {fl(outs[1]).tolist()}"
+    it = np.interp(np.array(c["x"]), np.array(c["xp"]), np.array(c["fp"]))
+    mi = fl(outs[2])
+    scale = max(1.0, float(np.abs(c["fp"]).max()))
+    if mi.shape != it.shape or not (np.abs(mi - it) <= 4 * EPS * scale).all():
+        return f"np.interp({c['x']}, {c['xp']}, {c['fp']}) = {it.tolist()} but model = {mi.tolist()}"
+    with np.errstate(all="ignore"):
+        ang = float(Vector3d(np.array(c["u"])).angle_with(Vector3d(np.array(c["w"])))[0])
+    ma = float(fl(outs[3])[0])
+    if not (ang == ma or abs(ang - ma) <= 4 * EPS * np.pi or (ang != ang and ma != ma)):
+        # the rounded cosine may sit on a bucket edge
+        cos = np.dot(c["u"], c["w"]) / np.linalg.norm(c["u"]) / np.linalg.norm(c["w"])
+        if not (bucket_flip(cos, 8 * EPS) and abs(ang - ma) <= bucket_width(cos)):
+            return f"angle_with({c['u']}, {c['w']}) = {ang!r} but model = {ma!r}"
+    return None
+
+
 # ---- prop ----------------------------------------------------------------------------------
 def direction_check(ctx, c, outs):
     key, G = key_for(c["k"])
@@ -200,6 +511,9 @@ SITES = {
     "orientation_colour": sites.Site("orientation_colour", "prop", orientation_check),
     "cubic_key": sites.Site("cubic_key", "prop", cubic_check),
     "recolour": sites.Site("recolour", "prop", recolour_check),
+    "colour_key": sites.Site("colour_key", "corr", key_check, key_lines),
+    "key_table": sites.Site("key_table", "corr", table_check, table_lines),
+    "numpy_contracts": sites.Site("numpy_contracts", "corr", contract_check, contract_lines),
 }
 PREDICATES = {}
 
@@ -248,6 +562,88 @@ def generate(ctx, status):
     pts = w @ np.array([[0, 0, 1.0], [1, 0, 1.0] / np.sqrt(2), [1, 1, 1.0] / np.sqrt(3)])
     ctx.count("cubic_key", ("cubic", 0))
     yield "cubic_key", {"inside": pts.tolist()}
+    # geometry of the colour key, model against implementation (generated last: the cases above keep their seeds)
+    quick = ctx.tier == "quick"
+    per_key, chunk = (12, 64) if quick else (96, 24)
+    for k, G in enumerate(S._groups):
+        Gl, fs, nrm, m = c07.sector_data(k, "laue")
+        raw = c07.directions(rng, nrm, per_key)
+        spec = special_dirs(rng, k, 6 if quick else 48)
+        base = {"k": k, "name": G.name, "label": f"laue({G.name})"}
+        for v, tag in raw + spec:
+            ctx.count(f"colour_key/{tag}", ("ck", k, tuple(v)), nontrivial=True)
+        for i in range(0, max(len(raw), len(spec)), chunk):
+            yield "colour_key", dict(base, vs=[v for v, t in raw[i:i + chunk]], hs=[v for v, t in spec[i:i + chunk]])
+        if sector_inputs(k)[3].size:
+            ctx.count("key_table", ("kt", k))
+            yield "key_table", dict(base)
+    for j in range(3 if quick else 12):
+        # the branch no Laue sector reaches: every wall contains the centre, or there is no wall
+        cen = GQ.vec(rng)
+        if j % 3 == 1:
+            ax = np.eye(3)[rng.permutation(3)] * rng.choice([-1.0, 1.0], size=(3, 1))
+            cen = [float(x) for x in ax[0] * rng.uniform(0.5, 2)]
+            sec = {"normals": [[float(x) for x in r] for r in ax[1:1 + int(rng.integers(1, 3))]], "center": cen, "vertices": []}
+        elif j % 3 == 2:      # orthogonal only up to rounding: the other branch, with degenerate denominators
+            w = np.cross(cen, GQ.vec(rng))
+            sec = {"normals": [[float(x) for x in w]], "center": cen, "vertices": []}
+        else:
+            sec = {"normals": [], "center": cen, "vertices": []}
+        hs = [GQ.vec(rng) for _ in range(6)] + [cen, [-x for x in cen]]
+        ctx.count("colour_key/synthetic", ("cks", j, tuple(cen)))
+        yield "colour_key", {"k": -1, "name": "synthetic", "label": "synthetic sector", "sector": sec, "vs": [], "hs": hs}
+    for j in range(20 if quick else 300):
+        n = int(rng.integers(2, 13))
+        xp = np.cumsum(rng.uniform(0.01, 1.0, n)) + rng.uniform(-2, 2)
+        fp = np.cumsum(rng.uniform(0, 1.0, n)) if j % 2 else rng.normal(size=n)
+        x = np.concatenate([rng.uniform(xp[0] - 1, xp[-1] + 1, 5), xp[[0, -1, int(rng.integers(n))]],
+                            [xp[0] - 1.0, xp[-1] + 1.0]])
+        u, w = GQ.vec(rng), GQ.vec(rng)
+        if j % 5 == 1:
+            w = [float(t) * [2.5, -0.5, 0.0][j % 3] for t in u]          # parallel, antiparallel, zero vector
+        elif j % 5 == 2:
+            w = [float(t) for t in np.cross(u, w)]
+        c = {"n": int(rng.integers(0, 40)) if j % 4 else TABLE_M, "a": float(rng.uniform(-3, 3)) if j % 4 else 0.0,
+             "b": float(rng.uniform(-3, 9)) if j % 4 else TWO_PI, "xp": [float(t) for t in xp], "fp": [float(t) for t in fp],
+             "x": [float(t) for t in x], "u": u, "w": w}
+        ctx.count("numpy_contracts", ("np", j, c["n"], c["a"]))
+        yield "numpy_contracts", c
+
+
+def special_dirs(rng, k, count):
+    """directions given directly inside the Laue sector of group k: the centre (as stored, unit, scaled, and at
+    distances 1e-3 .. 1e-15 from it), the vertices, points on the walls (exactly and within 1e-9), points on the arcs
+    centre -> wall point"""
+    fs, nrm, cen, vert = sector_inputs(k)
+    nh = nrm / np.linalg.norm(nrm, axis=1, keepdims=True) if len(nrm) else nrm
+    cu = cen / np.linalg.norm(cen)
+    out = [(cen, "centre"), (cu, "centre"), (cu * float(rng.uniform(0.1, 10)), "centre")]
+    for e in (1e-3, 1e-6, 1e-9, 1e-12, 1e-15):
+        t = np.cross(cu, rng.normal(size=3))
+        out.append((cu + e * t / np.linalg.norm(t), "near_centre"))
+    for v in vert:
+        out.append((v, "vertex"))
+        out.append((v + 1e-9 * (cu - v), "vertex"))
+    inner = projected(k, rng.normal(size=(count, 3)))
+    for i, p in enumerate(inner):
+        if not len(nh):
+            out.append((p, "inside"))
+            continue
+        n = nh[int(rng.integers(len(nh)))]
+        q = p - (p @ n) * n
+        q = q / np.linalg.norm(q)
+        if (nh @ q < -1e-12).any():
+            out.append((p, "inside"))
+            continue
+        r = i % 4
+        if r == 0:
+            out.append((q, "wall"))
+        elif r == 1:
+            out.append((q + n * float(rng.choice([1e-9, 1e-12])), "wall"))
+        else:
+            t = float(rng.uniform(0, 1))
+            out.append(((1 - t) * cu + t * q, "arc"))
+    return [([float(x) for x in np.asarray(v, float)], tag) for v, tag in out]
 
 
 def near_wall(case, width):
@@ -293,8 +689,21 @@ def run(ctx, status):
         ctx, "proof", PREDICATES,
         rule="colour arithmetic on seeded (hue, saturation, lightness, polar) incl. end points; for all 38 point-group "
              "objects: stratified directions (as C07) and random orientations x sample directions; a case is non-trivial "
-             "when the Laue group has more than 2 operations; the cubic-key clause on 40 barycentric points",
+             "when the Laue group has more than 2 operations; the cubic-key clause on 40 barycentric points; the geometry of "
+             "the key (`_util.py`) model against implementation for the Laue sector of all 38 groups: projected seeded "
+             "directions plus the centre (as stored / unit / scaled / at 1e-3..1e-15 from it), vertices, wall points "
+             "(exact, 1e-9, 1e-12 off), arcs centre-wall, synthetic sectors for the branch without walls; the correction "
+             "table of every sector with vertices; numpy contracts (linspace, cumsum, interp, angle_with) on seeded input",
         assumptions=["matplotlib hsv_to_rgb is modelled by the standard sextant algorithm (compared on every run)",
-                     "vertex/centre colours depend on the 1000-step numeric azimuth table: measured (tolerance 0.02), not proved",
+                     "corner hues: proved are polar = 0 on every wall, table = 2 pi/3, 4 pi/3 exactly at the segment boundaries "
+                     "and red/green/blue at hue 0, 1/3, 2/3; that the vertex azimuths fall on their rounded table indices "
+                     "holds only up to the 1/1000 discretisation (measured by key_table: hue offset <= 1.5e-3)",
+                     "the sector (normals, centre, vertices) is an input of the colour-key model, taken from the live "
+                     "fundamental_sector; that the table's 999 boundary distances are positive is measured (the theorems "
+                     "need non-negativity only, which arccos gives)",
+                     "numpy: np.sum order (pairwise) and np.round(cos, 10) bucket edges are covered by the table tolerance "
+                     "8e-11; np.interp/linspace/cumsum/angle_with are modelled by contract and compared on every run",
+                     "Rotation.from_axes_angles and Rotation * Vector3d (numpy-quaternion) inside _correct_azimuth are "
+                     "modelled by Conv.fromAxesAngles and the sandwich product (compared through the table)",
                      "symmetry invariance is inherited from C07 for the exact-centre model; on the implementation it is "
                      "checked off the sector boundary (margin 1e-6)"])
